@@ -392,10 +392,11 @@ impl Compiler {
     /// Compile for loop with per-iteration bindings for let/const vars
     /// Each iteration gets a fresh binding, with values copied between iterations.
     ///
-    /// Key insight: closures must capture the PRE-update value. To achieve this,
-    /// we don't modify the per-iteration bindings during update. Instead, we
-    /// compile the update to compute the new value into a register, then use
-    /// that register to initialize the NEXT iteration's bindings.
+    /// This follows CreatePerIterationEnvironment: at the end of the body the current values
+    /// of the loop variables are copied into a fresh scope, and the update clause runs in
+    /// that fresh scope. Closures created by the body keep the scope they were created in
+    /// (and so the pre-update values); the update reads and writes the new iteration's
+    /// bindings like any other code.
     fn compile_for_per_iteration(
         &mut self,
         for_stmt: &ForStatement,
@@ -428,13 +429,8 @@ impl Compiler {
         // Pop the init scope (we'll create per-iteration scopes in the loop)
         self.emit_pop_scope();
 
-        // Loop start - push per-iteration scope and copy values from registers
-        let loop_start = self.builder.current_offset();
-
-        // Push per-iteration scope
+        // First iteration's scope, initialised from the registers
         self.emit_push_scope();
-
-        // Declare and initialize vars from registers (these are the values closures will capture)
         for (name, reg) in &var_regs {
             let name_idx = self.builder.add_string(name.cheap_clone())?;
             self.builder.emit(Op::DeclareVar {
@@ -443,6 +439,9 @@ impl Compiler {
                 mutable: true, // let vars are mutable
             });
         }
+
+        // Loop start: the test, inside the current iteration's scope
+        let loop_start = self.builder.current_offset();
 
         // Push loop context
         self.push_loop(None);
@@ -466,7 +465,7 @@ impl Compiler {
         self.set_continue_target(continue_target);
 
         // The body may have modified the loop variables: copy the current scope
-        // values back to the registers that seed the next iteration.
+        // values to the registers that seed the next iteration.
         for (name, reg) in &var_regs {
             let name_idx = self.builder.add_string(name.cheap_clone())?;
             self.builder.emit(Op::GetVar {
@@ -475,26 +474,27 @@ impl Compiler {
             });
         }
 
-        // Compile update with special handling for loop variables:
-        // Instead of modifying the scope's bindings (which closures captured),
-        // we evaluate the update and store results to registers for the next iteration.
-        if let Some(update) = &for_stmt.update {
-            // Enable loop variable redirection: any assignment to loop vars
-            // will be redirected to their corresponding registers
-            self.set_loop_var_redirects(var_regs.clone());
+        // Next iteration's scope: leave this one (its closures keep it) and declare the
+        // variables afresh from the registers
+        self.emit_pop_scope();
+        self.emit_push_scope();
+        for (name, reg) in &var_regs {
+            let name_idx = self.builder.add_string(name.cheap_clone())?;
+            self.builder.emit(Op::DeclareVar {
+                name: name_idx,
+                init: *reg,
+                mutable: true,
+            });
+        }
 
+        // The update runs in the new iteration's scope
+        if let Some(update) = &for_stmt.update {
             let tmp = self.builder.alloc_register()?;
             self.compile_expression(update, tmp)?;
             self.builder.free_register(tmp);
-
-            // Disable redirection
-            self.clear_loop_var_redirects();
         }
 
-        // Pop per-iteration scope
-        self.emit_pop_scope();
-
-        // Jump back to loop start
+        // Jump back to the test
         self.builder.emit_jump_to(loop_start);
 
         // Patch end jump (jump here when test fails)
@@ -505,9 +505,7 @@ impl Compiler {
         // Pop loop context: breaks land here, still inside the per-iteration scope
         self.pop_loop()?;
 
-        // Leaving the loop (test failure or break) pops the per-iteration scope.
-        // This path is entered from inside that scope.
-        self.scope_depth += 1;
+        // Leaving the loop (test failure or break) pops the per-iteration scope
         self.emit_pop_scope();
 
         // Free registers
